@@ -226,7 +226,7 @@ RetTags(r) ==
       val == IF r.has_value THEN r.best_value ELSE NegInf
       goal == Max2(opt, primalMax)
       own == r.has_value /\ (primalMax = NegInf \/ val > primalMax)
-  IN Tag(r.panicked, "C04 maximize-panicked")
+  IN Tag(r.panicked, "C04 maximize-panicked") \cup Tag(r.panicked /\ ~r.cutoff_fired, "C03 panic")
      \cup Tag(r.panicked /\ cfg.dom, "C10 panic") \cup Tag(r.panicked /\ cfg.cache /\ ~cfg.dom, "C09 panic")
      \cup (IF r.panicked THEN {} ELSE
            Tag(r.has_value # r.sol.some, "C02 solution-iff-value")
